@@ -345,6 +345,17 @@ func (l *Layout) call(c *ssa.Call, d int) string {
 			return l.of(args[1], d+1) + "|" + tail
 		}
 	}
+	// slices.Concat(a, b, …) / bytes.Join([][]byte{a, b, …}, nil) = a ‖ b ‖ …
+	if (strings.HasPrefix(name, "slices.Concat") && len(args) == 1 && isByteSlice(c.Type())) ||
+		(name == "bytes.Join" && len(args) == 2 && isNilConst(args[1])) {
+		if parts, ok := variadicParts(args[0]); ok && len(parts) > 0 {
+			ps := make([]string, len(parts))
+			for i, p := range parts {
+				ps[i] = l.of(p, d+1)
+			}
+			return strings.Join(ps, "|")
+		}
+	}
 	switch name {
 	case "github.com/ethereum/go-ethereum/crypto.Keccak256Hash", "github.com/ethereum/go-ethereum/crypto.Keccak256",
 		"github.com/iden3/go-iden3-crypto/keccak256.Hash":
@@ -451,6 +462,11 @@ func (l *Layout) emptyPrefix(v ssa.Value) bool {
 }
 
 func isNilByteConst(v ssa.Value) bool {
+	c, ok := v.(*ssa.Const)
+	return ok && c.Value == nil
+}
+
+func isNilConst(v ssa.Value) bool {
 	c, ok := v.(*ssa.Const)
 	return ok && c.Value == nil
 }
